@@ -289,6 +289,28 @@ class C11(Prop):
                 for v in ((1 << p2), (1 << p2) + 1, -(1 << p2)):     # powers of two: float precision steps
                     if lo <= v <= hi:
                         ks.add(v)
+            # round numbers in mixed bases (2^a * 5^b * m: limbs, decimal / binary block sizes) and multiples of 2^31 / 2^32:
+            # boundaries at which arithmetic done in pieces loses a carry
+            if d["len"] > 20:
+                smooth = []
+                a2 = 1
+                while a2 <= hi:
+                    v = a2
+                    while v <= hi:
+                        smooth.append(v)
+                        v *= 5
+                    a2 *= 2
+                smooth = [v for v in smooth if v >= (1 << 16)]
+                cand = set()
+                for v in smooth:
+                    for m_ in (1, 2, 3):
+                        cand.update((v * m_, -v * m_))
+                for m_ in range(1, 64):
+                    cand.update((m_ << 31, -(m_ << 31), m_ << 32, -(m_ << 32)))
+                cand = sorted(v for v in cand if lo <= v <= hi)
+                if len(cand) > (900 if thorough else 450):
+                    cand = r.sample(cand, 900 if thorough else 450)
+                ks.update(cand)
             for _ in range(40 if thorough else 6):
                 ks.add(r.randrange(lo, hi + 1))
             eps = 1e-3
